@@ -20,7 +20,15 @@ def main():
     t0 = time.time()
     scratch = K.Scratch(prop)
     try:
-        status = mod.run(tier, scratch, t0, replay=a.replay)
+        try:
+            status = mod.run(tier, scratch, t0, replay=a.replay)
+        except Exception:
+            # a failure of the machinery itself is never a verdict about the repository
+            import traceback
+
+            traceback.print_exc()
+            print("INCONCLUSIVE property=%s reason=internal error in the check (see traceback above)" % prop)
+            status = 2
     finally:
         if not os.environ.get("VERIF_KEEP_SCRATCH"):
             scratch.cleanup()
